@@ -217,7 +217,7 @@ def check_accessor(ck, fn):
 def this_calls(fn, names):
     out = []
     for x in ir.walk(fn.body):
-        if "callee" in x and x["callee"]["name"] in names and x.get("member_call"):
+        if "callee" in x and (names is None or x["callee"]["name"] in names) and x.get("member_call") and kids(x):
             obj = strip_casts(kids(x)[0])
             if obj["k"] == "This":
                 out.append(x)
@@ -328,9 +328,21 @@ def check_moved(ck, fn):
           "takes all 6 fields; source: data_=nullptr, begin_==end_")
 
 
-def check_copy_loop(ck, fn):
+def check_copy_loop(ck, fn, tu=None):
     rb = fn.params[0]["did"]
     loops = [l for l in match.loops_in(fn.body)]
+    host = fn
+    if not loops and tu is not None:
+        # the loop may live in a private helper that receives the source buffer
+        for c in this_calls(fn, None):
+            cal = tu.by_did.get(c["callee"]["did"])
+            args = kids(c)[1:]
+            if cal is None or cal.body is None or len(args) != 1 or ref_of(args[0]) != rb or len(cal.params) != 1:
+                continue
+            hl = [l for l in match.loops_in(cal.body)]
+            if len(hl) == 1:
+                loops, rb, host = hl, cal.params[0]["did"], cal
+                break
     ck.require(len(loops) == 1, "%s: one copy loop expected" % fn.loc)
     init, cond, inc, body = match.loop_parts(loops[0])
     var = None
@@ -348,7 +360,7 @@ def check_copy_loop(ck, fn):
         oke = bool(p and ref_of(p[0]) == rb and ref_of(p[1]) == var)
     # reset of own cursors before refilling (assignment only)
     if not (okc and oke):
-        ck.violation("COPY-ELEMENTS", fn.qname, "loop", "copy does not push_back(rb[i]) for every i in [0, rb.size())", fn.nloc(loops[0]))
+        ck.violation("COPY-ELEMENTS", fn.qname, "loop", "copy does not push_back(rb[i]) for every i in [0, rb.size())", host.nloc(loops[0]))
         return
     if fn.kind != "ctor":
         g = cfgm.CFG(fn)
@@ -450,24 +462,67 @@ def sv_mode(fn):
 
 
 def reached_in_switch(fn):
-    """statements executed for the instantiated constant switch(Mode)"""
-    sw = [s for s in kids(fn.body) if s["k"] == "SwitchStmt"]
-    if not sw:
-        return list(kids(fn.body))
-    cond = const_int(kids(sw[0])[0])
-    if cond is None:
-        raise dtable.Undecidable("%s: switch condition is not a compile-time constant" % fn.loc)
-    from rules.c15 import flatten_switch
-    flat = flatten_switch(kids(sw[0])[1])
-    pos = [i for i, e in enumerate(flat) if e[0] == "case" and e[1] == cond]
+    """the nodes executed in this instantiation: branches whose condition is a compile-time constant (switch (Mode),
+    if (Mode == ...), if constexpr) contribute only the side that is taken"""
     out = []
-    if pos:
-        for e in flat[pos[0]:]:
-            if e[0] != "stmt":
-                continue
-            out.append(e[1])
-            if e[1]["k"] in ("ReturnStmt", "BreakStmt"):
-                break
+
+    class Done(Exception):
+        pass
+
+    def run(s):
+        if s is None:
+            return
+        k = s["k"]
+        if k == "CompoundStmt":
+            for c in kids(s):
+                run(c)
+            return
+        if k == "IfStmt":
+            c = const_int(kids(s)[0])
+            if c is None:
+                out.extend(ir.walk(kids(s)[0]))
+                for br in kids(s)[1:]:
+                    try:
+                        run(br)
+                    except Done:
+                        pass
+                return
+            run(kids(s)[1] if c else (kids(s)[2] if len(kids(s)) > 2 else None))
+            return
+        if k == "SwitchStmt":
+            c = const_int(kids(s)[0])
+            if c is None:
+                raise dtable.Undecidable("%s: switch condition is not a compile-time constant" % fn.loc)
+            from rules.c15 import flatten_switch
+            flat = flatten_switch(kids(s)[1])
+            pos = [i for i, e in enumerate(flat) if e[0] == "case" and e[1] == c] or [i for i, e in enumerate(flat) if e[0] == "default"]
+            if pos:
+                for e in flat[pos[0]:]:
+                    if e[0] != "stmt":
+                        continue
+                    if e[1]["k"] == "BreakStmt":
+                        return
+                    run(e[1])
+            return
+        if k in ("ReturnStmt",):
+            out.extend(ir.walk(s))
+            raise Done()
+        if k in ("ForStmt", "WhileStmt", "DoStmt"):
+            out.append(s)
+            init, cond, inc, body = match.loop_parts(s)
+            for part in (init, cond, inc):
+                if part is not None:
+                    out.extend(ir.walk(part))
+            try:
+                run(body)
+            except Done:
+                pass
+            return
+        out.extend(ir.walk(s))
+    try:
+        run(fn.body)
+    except Done:
+        pass
     return out
 
 
@@ -479,7 +534,7 @@ def check_sv_modes(ck, tu):
         cr, de = cr[0], de[0]
         alloc = set()
         for s in reached_in_switch(cr):
-            for x in ir.walk(s):
+            for x in [s]:
                 if x["k"] == "CXXNewExpr":
                     alloc.add("new[]" if x.get("array") else "new")
                 elif "callee" in x and x["callee"]["name"] == "operator new":
@@ -487,7 +542,7 @@ def check_sv_modes(ck, tu):
         free = set()
         dtor_loop = False
         for s in reached_in_switch(de):
-            for x in ir.walk(s):
+            for x in [s]:
                 if x["k"] == "CXXDeleteExpr":
                     free.add("delete[]" if x.get("array") else "delete")
                 elif "callee" in x and x["callee"]["name"] == "operator delete":
@@ -498,7 +553,12 @@ def check_sv_modes(ck, tu):
                               or match.call_named(y, ("destroy_at",)) for y in ir.walk(body))
                     b = match.binop(cond, ("<", "!="))
                     full = bool(b and ref_of(b[2]) == de.params[1]["did"])
-                    lo0 = any(y["k"] == "VarDecl" and kids(y) and const_int(kids(y)[0]) == 0 for y in ir.walk(init))
+                    var = ref_of(b[1]) if b else None
+                    decl0 = [y for y in de.nodes() if y["k"] == "VarDecl" and y.get("did") == var and kids(y) and const_int(kids(y)[0]) == 0]
+                    wr = [y for y in de.nodes() if (match.unop(y, ("++", "--")) and ref_of(match.unop(y, ("++", "--"))[1]) == var) or
+                          (y["k"] in ("BinaryOperator", "CompoundAssignOperator") and match.binop(y, ("=", "+=", "-=")) and ref_of(match.binop(y, ("=", "+=", "-="))[1]) == var)]
+                    inside = {y["id"] for y in ir.walk(x)}
+                    lo0 = bool(var is not None and decl0 and wr and all(y["id"] in inside and match.unop(y, ("++",)) for y in wr))
                     if has and full and lo0:
                         dtor_loop = True
                     elif has:
@@ -550,7 +610,16 @@ def check_sv_owner(ck, fn):
         ok_b = False
         if saved is not None:
             ds = [c for c in ir.walk(fn.body) if match.call_named(c, ("destroy_array",)) and ref_of(kids(c)[0]) == saved["did"]]
-            if ds and all(g.pos(d) for d in ds) and g.path_avoiding(pw, [g.pos(d) for d in ds]) is None:
+            # a path on which the saved pointer was tested null has nothing to destroy
+            null_edges = []
+            for y in ir.walk(fn.body):
+                if y["k"] == "IfStmt":
+                    pt = match.ptr_truth(kids(y)[0])
+                    if pt is not None and ref_of(pt) == saved["did"]:
+                        fe = g.false_edge_of(y["id"])
+                        if fe:
+                            null_edges.append(fe)
+            if ds and all(g.pos(d) for d in ds) and g.path_avoiding(pw, [g.pos(d) for d in ds], blocked_edges=null_edges) is None:
                 ok_b = True
         # (c) array_ known null on this path: write is in the false branch of if (array_)
         ok_c = False
@@ -682,7 +751,7 @@ def run(ck):
                 if fn.d.get("move_ctor") or fn.d.get("move_assign"):
                     check_moved(ck, fn)
                 if fn.d.get("copy_ctor") or fn.d.get("copy_assign"):
-                    check_copy_loop(ck, fn)
+                    check_copy_loop(ck, fn, tu)
                 check_cursor_reset(ck, fn)
                 check_capacity(ck, fn)
             if nd:
